@@ -1,5 +1,37 @@
 #![feature(portable_simd)]
+//! vunit: library-level monitors that call the repo's public functions directly.
+//! Usage: vunit <subcommand> <json-args-file>  -> JSON on stdout.
+use serde_json::{Value, json};
+
+#[path = "vunit/c08.rs"]
+mod c08;
+#[path = "vunit/c16.rs"]
+mod c16;
+#[path = "vunit/c17.rs"]
+mod c17;
+#[path = "vunit/c18.rs"]
+mod c18;
+#[path = "vunit/c19.rs"]
+mod c19;
+#[path = "vunit/c20.rs"]
+mod c20;
+
 fn main() {
-    eprintln!("vunit: no subcommand yet");
-    std::process::exit(2);
+    let args: Vec<String> = std::env::args().collect();
+    if args.len() < 3 {
+        eprintln!("usage: vunit <c08|c16|c17|c18|c19|c20> <args.json>");
+        std::process::exit(2);
+    }
+    let text = std::fs::read_to_string(&args[2]).expect("read args file");
+    let input: Value = serde_json::from_str(&text).expect("args json");
+    let out = match args[1].as_str() {
+        "c08" => c08::run(&input),
+        "c16" => c16::run(&input),
+        "c17" => c17::run(&input),
+        "c18" => c18::run(&input),
+        "c19" => c19::run(&input),
+        "c20" => c20::run(&input),
+        other => json!({"error": format!("unknown subcommand {other}")}),
+    };
+    println!("{}", out);
 }
